@@ -147,10 +147,14 @@ type groupDesc[G algebra.PrimeGroupElement[G, S], S algebra.PrimeFieldElement[S]
 	group algebra.PrimeGroup[G, S]
 	model *wcurve
 	aff   func(G) apt
+	genEq func(k *big.Int, e G) bool // independent decision of [k]G == e where the model is not a wcurve (G2: math/big over Fp2)
 }
 
 // mulGenEq decides [k]G == e: by the math/big model when there is one (indep = true), otherwise by the library's own arithmetic.
 func (g *groupDesc[G, S]) mulGenEq(k *big.Int, e G) (eq, indep bool) {
+	if g.genEq != nil {
+		return g.genEq(k, e), true
+	}
 	if g.model != nil {
 		want := g.model.mul(k, g.model.gen())
 		got := g.aff(e)
